@@ -847,8 +847,7 @@ namespace bloch::compiler {
         if (!check(TokenType::Semicolon)) {
             bool isFinal = match(TokenType::Final);
 
-            if (check(TokenType::Int) || check(TokenType::Float) || check(TokenType::Char) ||
-                check(TokenType::String) || check(TokenType::Bit) || check(TokenType::Qubit)) {
+            if (isTypeAhead()) {
                 initializer = parseVariableDeclaration(isFinal, false);
             } else {
                 if (isFinal) {
